@@ -212,6 +212,30 @@ def run(prop, tier, seed, replay):
                     if not equal(name, got, ref[name]):
                         ck.add_violation(f"{name}: result with {w} worker processes differs from the sequential result",
                                          dict(rep, entry=name, workers=w))
+            # ---- one session, several binnings: a sequential measurement (binning A), then the next binning on a real
+            #      pool, then the same sequentially — what the main process learned about A must not reach B's workers
+            for edges_b in ([0.1, 0.55, 1.0], [0.1, 0.3, 0.5, 1.0]):
+                conf_b = Configuration.create(rmin=[0.003, 0.01], rmax=[0.02, 0.08], unit="rad", edges=edges_b, closed=closed)
+                try:
+                    with C.Workers(1):
+                        yaw.crosscorrelate(conf, cats["D"], cats["U"], ref_rand=cats["R"])
+                        yaw.autocorrelate(conf, cats["D"], cats["R"], count_rr=True)
+                    with C.Workers(3):
+                        got_b = (yaw.crosscorrelate(conf_b, cats["D"], cats["U"], ref_rand=cats["R"]),
+                                 yaw.autocorrelate(conf_b, cats["D"], cats["R"], count_rr=True))
+                    with C.Workers(1):
+                        ref_b = (yaw.crosscorrelate(conf_b, cats["D"], cats["U"], ref_rand=cats["R"]),
+                                 yaw.autocorrelate(conf_b, cats["D"], cats["R"], count_rr=True))
+                except Exception as e:  # noqa: BLE001
+                    ck.add_violation(f"session (sequential binning A, then binning {edges_b} on 3 workers) raised "
+                                     f"{type(e).__name__}: {e}", dict(rep, entry="session", edges_b=edges_b))
+                    continue
+                ck.count("session:sequential-A-then-parallel-B")
+                ck.case(None, (ci, "session", tuple(edges_b)))
+                if not (same_cf(got_b[0], ref_b[0]) and same_cf(got_b[1], ref_b[1])):
+                    ck.add_violation(f"after a sequential measurement with edges {edges}, the measurement with edges {edges_b} on 3 "
+                                     "worker processes differs from the same measurement with 1 worker",
+                                     dict(rep, entry="session", edges_a=edges, edges_b=edges_b, workers=3))
             for k in cats:
                 C.remove(root / f"c{ci}_{k}")
     finally:
